@@ -345,7 +345,12 @@ def toolAdvD : ToolAdv TSt Nat Nat TRes where
     let s' := { s with p := s.p + 1 }
     if raises item then (s', .raise)
     else if item.isDigit then (s', .ok (1000 + s.p, (List.range (item.toNat - '0'.toNat)).map fun j => s.p * 10 + j))
+    -- `G` / `J`: `tool_calls` is a generator object yielding no / one call (response ids from 3000)
+    else if item = 'G' then (s', .ok (3000 + s.p, []))
+    else if item = 'J' then (s', .ok (3000 + s.p, [s.p * 10]))
     else (s', .ok (1000 + s.p, []))
+  -- a list (or None) is truthy iff it holds a call; a generator object is truthy whatever it yields
+  truthy resp calls := resp ≥ 3000 || !calls.isEmpty
   complete s _ :=
     if raises (pick s.cs s.c 'r') then ({ s with c := s.c + 1 }, .raise)
     else ({ s with c := s.c + 1 }, .ok (2000 + s.c))
@@ -393,7 +398,7 @@ def toolTags (cfg : ToolCfg) (r : ToolRun TSt Nat Nat TRes) : String :=
     | some .raise => "tool:raise"
     | some (.ok x) =>
       if !cfg.hasSchemas || !cfg.hasToolApi then "tool:plain"
-      else if x ≥ 2000 then "tool:final"
+      else if x ≥ 2000 && x < 3000 then "tool:final"
       else if r.logged.isEmpty then "tool:noauto" else "tool:answered"
   base
 
